@@ -332,6 +332,9 @@ func (C20) Execute(sc *core.Scenario, keepLog bool) *core.Result {
 				check("recovery-expunge")
 			case "protect":
 				name := []string{recoveryName, strings.ToUpper(recoveryName), strings.ToLower(recoveryName)}[abs(a.Arg(1))%3]
+				if abs(a.Arg(3))%3 == 1 {
+					name += "/" // the same mailbox, written with a trailing hierarchy separator
+				}
 				var r *wire.Result
 				what := ""
 				switch abs(a.Arg(0)) % 6 {
